@@ -240,7 +240,8 @@ func terminates(p *lang.Program, inputs map[string]*lang.Val) bool {
 	}
 	o := ref.Run(p, in, ref.Policies[0], ref.DefaultConfig())
 	if o.Status == "abort" {
-		return strings.HasPrefix(o.Abort, "cyclic") || strings.HasPrefix(o.Abort, "format") || strings.HasPrefix(o.Abort, "uninit")
+		// (a program that builds a cyclic container must not be executed: open finding F10)
+		return strings.HasPrefix(o.Abort, "format") || strings.HasPrefix(o.Abort, "uninit")
 	}
 	return true
 }
